@@ -27,6 +27,8 @@ def lq_sequence(r, n):
                 urls.append([ident, r.choice(vals), r.choice(["", "http://via.example/"]), r.randrange(0, 4)])
                 ids.append(ident)
             ops.append({"op": "lqadd", "urls": urls})
+            if r.random() < 0.5:
+                ops.append({"op": "lqrows"})
         elif k < 0.55:
             ops.append({"op": "lqget", "limit": r.randrange(1, 4)})
         elif k < 0.70 and ids:
@@ -56,9 +58,27 @@ def lq_stream(ctx, nseq):
         nontriv = any(o["op"] == "lqabandon" for o in s) or len({u[1] for o in s if o["op"] == "lqadd" for u in o["urls"]}) < sum(len(o["urls"]) for o in s if o["op"] == "lqadd")
         ctx.case(json.dumps(s), nontriv)
         ctx.count("lq-ops", len(s))
+        ref = {}       # id -> value: what the property says the queue holds (written from the property text, not from the model)
+        used, judged = set(), True
         for i, (o, x, y) in enumerate(zip(s, a, b)):
+            if o["op"] == "lqadd":
+                for ident, value, via, hops in o["urls"]:
+                    if ident in used:
+                        judged = False      # a re-used item id (ids are UUIDs in the crawler): outside the property, left to the model comparison
+                    used.add(ident)
+                    if value not in ref.values():
+                        ref[ident] = value
+            elif o["op"] == "lqdelete":
+                for ident in o["ids"]:
+                    ref.pop(ident, None)
             if x.startswith("rows "):
                 vals = [row.split("|")[1] for row in x[5:].split(",") if row]
+                if judged and sorted(vals) != sorted(ref.values()) and len(vals) == len(set(vals)):
+                    missing = sorted(set(ref.values()) - set(vals))
+                    extra = sorted(set(vals) - set(ref.values()))
+                    ctx.violation("the local queue does not hold what was handed to it: missing %s, unexpected %s" % (missing, extra),
+                                  {"domain": "queue", "ops": s[:i + 1]})
+                    break
                 if len(vals) != len(set(vals)):
                     ctx.violation("the local queue holds a URL twice: %s" % sorted(vals), {"domain": "queue", "ops": s[:i + 1]})
                     break
